@@ -390,6 +390,28 @@ fn body_decls(out: &mut Vec<Decl>) {
     push(vf3, vec![find(vf3, "flatten", 0), find(vf3, "flatten", 1)], &[0]);
     // one flatten field in each of two variants is no conflict
     push("enum E { A { #[darling(flatten)] a: u8 }, C { #[darling(flatten)] x: u8, y: u8 } }", vec![], &[0]);
+    // an option name is one identifier: a path that merely ends in (or is `::` +) an option name
+    // is an unknown option, at every position
+    for o in ["::skip", "::rename = \"x\"", "::default", "::multiple", "::flatten", "::with = f", "::map = f", "darling::skip", "a::default"] {
+        let s = format!("struct S {{ #[darling({o})] a: u8, b: u8 }}");
+        push(&s, vec![find(&s, o, 0)], &[0]);
+        let s = format!("{a}struct S {{ #[darling({o})] a: u8, b: u8 }}");
+        push(&s, vec![find(&s, o, 0)], &elem);
+    }
+    for o in ["::skip", "::word", "::rename = \"x\"", "darling::skip", "a::word"] {
+        let s = format!("enum E {{ #[darling({o})] A, B }}");
+        push(&s, vec![find(&s, o, 0)], &[0]);
+        let s = format!("enum E {{ A, #[darling({o})] B(u8) }}");
+        push(&s, vec![find(&s, o, 0)], &[0]);
+    }
+    for o in ["::default", "::rename_all = \"snake_case\"", "::allow_unknown_fields", "::map = f", "::from_word = f", "darling::default"] {
+        let s = format!("#[darling({o})] struct S {{ a: u8 }}");
+        push(&s, vec![find(&s, o, 0)], &[0]);
+    }
+    for o in ["::forward_attrs", "::supports(any)", "::from_ident", "darling::attributes(b)"] {
+        let s = format!("#[darling(attributes(a), {o})] struct S {{ a: u8 }}");
+        push(&s, vec![find(&s, o, 0)], &[1]);
+    }
     // attrs field needs forward_attrs
     let at1 = format!("{a}struct S {{ attrs: Vec<syn::Attribute>, b: u8 }}");
     push(&at1, vec![find(&at1, "attrs", 0)], &elem);
